@@ -46,6 +46,7 @@ type bprover struct {
 	// while a goal about the results of a call is being proved inside the callee: what the caller knows about them
 	callerFacts []dfact
 	callerCall  *ssa.Call
+	intParam    map[string]int
 }
 
 func isSignedInt(t types.Type) bool {
@@ -1093,6 +1094,9 @@ func (p *bprover) prove(goal dfact, b *ssa.BasicBlock, extra *factSet, depth int
 	if p.viaCalleeAt(goal, b) {
 		return true
 	}
+	if p.viaCalleeGuardAt(goal, b) {
+		return true
+	}
 	if depth <= 0 {
 		return false
 	}
@@ -1335,12 +1339,23 @@ func (p *bprover) viaCalleeAt(goal dfact, at *ssa.BasicBlock) bool {
 	}
 	// a length in the goal must be the length of one of the call's arguments
 	lenParam := map[string]int{}
+	intParam := map[string]int{} // the length is handed to the callee as a number: f(start, end, len(x))
 	for _, n := range lens {
 		found := false
 		for j, a := range call.Call.Args {
 			if lenNode(a) == n {
 				lenParam[n], found = j, true
 				break
+			}
+		}
+		if !found {
+			for j, a := range call.Call.Args {
+				if isIntType(a.Type()) {
+					if l := p.lin(a); l.n == n && l.k == 0 {
+						intParam[n], found = j, true
+						break
+					}
+				}
 			}
 		}
 		if !found {
@@ -1397,6 +1412,8 @@ func (p *bprover) viaCalleeAt(goal dfact, at *ssa.BasicBlock) bool {
 		ai = fmt.Sprint("l", j)
 	} else if j, ok := lenIdx[goal.a]; ok {
 		ai = fmt.Sprint("lr", j)
+	} else if j, ok := intParam[goal.a]; ok {
+		ai = fmt.Sprint("ip", j)
 	}
 	if i, ok := idx[goal.b]; ok {
 		bi = fmt.Sprint("r", i)
@@ -1404,6 +1421,8 @@ func (p *bprover) viaCalleeAt(goal dfact, at *ssa.BasicBlock) bool {
 		bi = fmt.Sprint("l", j)
 	} else if j, ok := lenIdx[goal.b]; ok {
 		bi = fmt.Sprint("lr", j)
+	} else if j, ok := intParam[goal.b]; ok {
+		bi = fmt.Sprint("ip", j)
 	}
 	memoKey := fmt.Sprintf("%s|%s-%s<=%d|%v", cf.String(), ai, bi, goal.c, gk)
 	if p.c.viaMemo == nil {
@@ -1459,8 +1478,10 @@ func (p *bprover) viaCalleeAt(goal dfact, at *ssa.BasicBlock) bool {
 	}
 	p.c.viaMemo[memoKey] = false // cycles do not prove anything
 	p.callerFacts, p.callerCall = callerFacts, call
+	p.intParam = intParam
 	res := p.viaCalleeProve(cf, goal, idx, lenParam, guard, lenIdx, nilGuard)
 	p.callerFacts, p.callerCall = nil, nil
+	p.intParam = nil
 	p.c.viaMemo[memoKey] = res
 	return res
 }
@@ -1525,6 +1546,9 @@ func (p *bprover) viaCalleeProve(cf *ssa.Function, goal dfact, idx, lenParam map
 				}
 				if j, ok := lenParam[n]; ok {
 					return []lt{pr.lenOf(cf.Params[j])}
+				}
+				if j, ok := p.intParam[n]; ok {
+					return []lt{pr.lin(cf.Params[j])}
 				}
 				if j, ok := lenIdx[n]; ok {
 					var out []lt
@@ -1951,6 +1975,31 @@ func (c *C) callSitePre(fn *ssa.Function) []dfact {
 				n := lenNode(prm)
 				out = append(out, dfact{"0", n, -best})
 			}
+			// an upper bound on the length that every call site has established (an arity check made by the caller)
+			worst := int64(-1)
+			for _, call := range sites {
+				if i >= len(call.Call.Args) {
+					worst = 1 << 30
+					break
+				}
+				pc := c.newProver(call.Parent())
+				arg := call.Call.Args[i]
+				ln := lenNode(arg)
+				pc.vals[ln] = arg
+				got := int64(1 << 30)
+				for _, k := range []int64{1, 2, 3, 4, 5, 6, 8} {
+					if pc.ProveLE(lt{ln, 0}, lt{"0", 0}, k, call) {
+						got = k
+						break
+					}
+				}
+				if got > worst {
+					worst = got
+				}
+			}
+			if worst > 0 && worst < 1<<30 {
+				out = append(out, dfact{lenNode(prm), "0", worst})
+			}
 		}
 	}
 	c.preMemo[fn] = out
@@ -2009,6 +2058,38 @@ func (c *C) proveSite(p *bprover, in ssa.Instruction) (bool, string) {
 							return true, ""
 						}
 					}
+				}
+			}
+			// a scaled index k*i + c under i < (len(x) - d) / k: the largest value is len(x) - d - k + c, in range when c < d + k
+			if k, v, cst, ok := scaledIndex(idx); ok && k >= 1 && cst >= 0 {
+				for _, b := range in.Parent().Blocks {
+					for _, qi := range b.Instrs {
+						q, isQ := qi.(*ssa.BinOp)
+						if !isQ || q.Op != token.QUO {
+							continue
+						}
+						if kk, isK := constInt(q.Y); !isK || kk != k {
+							continue
+						}
+						num := p.lin(q.X)
+						if num.n != up.n {
+							continue
+						}
+						d := up.k - num.k // numerator = len(x) - d
+						if d < 0 || cst >= d+k {
+							continue
+						}
+						if p.ProveLE(p.lin(v), p.lin(q), -1, in) && p.ProveLE(zero, p.lin(v), 0, in) {
+							return true, ""
+						}
+					}
+				}
+			}
+			// a scaled index k*t + c where t counts the elements a strided loop collected from x (keys[t] is x[j0+k*t]):
+			// element t was appended in the iteration with j = j0 + k*t < len(x)
+			if k, v, cst, ok := scaledIndex(idx); ok && k >= 1 && cst >= 0 {
+				if p.stridedCollection(x, k, v, cst, in) {
+					return true, ""
 				}
 			}
 			// the index of the best element so far: 0 at first, later only ever the position of the element just appended
@@ -3129,4 +3210,330 @@ func (c *C) resultGeParam(fn *ssa.Function, k, j int) bool {
 	}
 	c.rgpMemo[key] = 2
 	return false
+}
+
+// scaledIndex: idx = k*v + c with constants k and c (c may be absent).
+func scaledIndex(idx ssa.Value) (k int64, v ssa.Value, c int64, ok bool) {
+	mul := func(x ssa.Value) (int64, ssa.Value, bool) {
+		bo, isB := x.(*ssa.BinOp)
+		if !isB || bo.Op != token.MUL {
+			return 0, nil, false
+		}
+		if kk, isK := constInt(bo.X); isK {
+			return kk, bo.Y, true
+		}
+		if kk, isK := constInt(bo.Y); isK {
+			return kk, bo.X, true
+		}
+		return 0, nil, false
+	}
+	if kk, vv, isM := mul(idx); isM {
+		return kk, vv, 0, true
+	}
+	bo, isB := idx.(*ssa.BinOp)
+	if !isB || bo.Op != token.ADD {
+		return 0, nil, 0, false
+	}
+	if cc, isC := constInt(bo.Y); isC {
+		if kk, vv, isM := mul(bo.X); isM {
+			return kk, vv, cc, true
+		}
+	}
+	if cc, isC := constInt(bo.X); isC {
+		if kk, vv, isM := mul(bo.Y); isM {
+			return kk, vv, cc, true
+		}
+	}
+	return 0, nil, 0, false
+}
+
+// stridedCollection: the site indexes x with k*v + c. Some loop of the function runs a counter j = j0, j0+k, j0+2k, ...
+// while j < len(x) and appends exactly one element to a slice K (empty before the loop) in every iteration; v < len(K)
+// is provable at the site. Element v of K was appended while j0 + k*v < len(x) held, so k*v + c < len(x) when c <= j0,
+// or when c == j0+1 and the parities of len(x) and of j0 (k even) differ from "j could be len(x)-1".
+func (p *bprover) stridedCollection(x ssa.Value, k int64, v ssa.Value, c int64, at ssa.Instruction) bool {
+	fn := at.Parent()
+	for _, h := range fn.Blocks {
+		if !isLoopHeaderBlock(h) || len(h.Instrs) == 0 {
+			continue
+		}
+		iff, ok := h.Instrs[len(h.Instrs)-1].(*ssa.If)
+		if !ok {
+			continue
+		}
+		cmp, ok := iff.Cond.(*ssa.BinOp)
+		if !ok || cmp.Op != token.LSS {
+			continue
+		}
+		j, ok := cmp.X.(*ssa.Phi)
+		if !ok || j.Block() != h {
+			continue
+		}
+		ln, ok := cmp.Y.(*ssa.Call)
+		if !ok {
+			continue
+		}
+		if bi, isB := ln.Call.Value.(*ssa.Builtin); !isB || bi.Name() != "len" || canon(ln.Call.Args[0]) != canon(x) {
+			continue
+		}
+		// the counter: constant start, +k on every back edge
+		j0, okJ := int64(0), true
+		for i, pred := range h.Preds {
+			if h.Dominates(pred) {
+				bo, isB := j.Edges[i].(*ssa.BinOp)
+				if !isB || bo.Op != token.ADD || bo.X != ssa.Value(j) {
+					okJ = false
+					break
+				}
+				if kk, isK := constInt(bo.Y); !isK || kk != k {
+					okJ = false
+				}
+			} else if kk, isK := constInt(j.Edges[i]); isK {
+				j0 = kk
+			} else {
+				okJ = false
+			}
+		}
+		if !okJ || j0 < 0 {
+			continue
+		}
+		// the loop body is entered on the true edge only (the append happens under j < len(x))
+		for _, other := range h.Instrs {
+			K, isP := other.(*ssa.Phi)
+			if !isP {
+				break
+			}
+			if _, isSl := K.Type().Underlying().(*types.Slice); !isSl {
+				continue
+			}
+			grows := true
+			for i, pred := range h.Preds {
+				if h.Dominates(pred) {
+					ap, isA := isAppend(K.Edges[i])
+					if !isA || ap.Call.Args[0] != ssa.Value(K) || !h.Succs[0].Dominates(ap.Block()) {
+						grows = false
+						break
+					}
+					if elems, okE := sliceLiteralElems(ap.Call.Args[1]); !okE || len(elems) != 1 {
+						grows = false
+					}
+				} else if n, okN := constSliceLen(K.Edges[i]); !okN || n != 0 {
+					grows = false
+				}
+			}
+			if !grows {
+				continue
+			}
+			if !p.ProveLE(p.lin(v), p.lenOf(K), -1, at) || !p.ProveLE(lt{"0", 0}, p.lin(v), 0, at) {
+				continue
+			}
+			if c <= j0 {
+				return true
+			}
+			if c == j0+1 && k%2 == 0 {
+				// j0 + k*v has the parity of j0; if len(x) has the same parity, j0 + k*v <= len(x) - 2
+				fs := &factSet{par: map[string]int{}}
+				p.chainFacts(at.Block(), fs)
+				if pl, okP := p.parityOf(lenNode(x), fs, map[string]bool{}); okP && pl >= 0 && int64(pl) == ((j0%2)+2)%2 {
+					return true
+				}
+			}
+		}
+	}
+	return false
+}
+
+// viaCalleeGuardAt: the goal speaks about the length of a slice that was handed to a first-party helper, and tests of
+// the helper's results dominate the site (cnt, errReply := parseCount(cmd); if errReply != nil { return }; if cnt == 0 {..}).
+// What the helper knew about the slice where it returned is then known at the site: the goal is proved, with the slice's
+// length standing for the parameter's, at every return of the helper that is compatible with the tests.
+func (p *bprover) viaCalleeGuardAt(goal dfact, at *ssa.BasicBlock) bool {
+	if calleeProofDepth >= 2 {
+		return false
+	}
+	var ln string
+	for _, n := range []string{goal.a, goal.b} {
+		if n == "0" {
+			continue
+		}
+		if !strings.HasPrefix(n, "len:") || (ln != "" && ln != n) {
+			return false
+		}
+		ln = n
+	}
+	if ln == "" {
+		return false
+	}
+	type guards struct {
+		boolG map[int]bool
+		nilG  map[int]bool
+		eqG   map[int][2]int64 // index -> {k, 1 if equal / 0 if different}
+	}
+	byCall := map[*ssa.Call]*guards{}
+	get := func(c2 *ssa.Call) *guards {
+		if byCall[c2] == nil {
+			byCall[c2] = &guards{boolG: map[int]bool{}, nilG: map[int]bool{}, eqG: map[int][2]int64{}}
+		}
+		return byCall[c2]
+	}
+	resultOf := func(v ssa.Value) (*ssa.Call, int, bool) {
+		switch x := v.(type) {
+		case *ssa.Extract:
+			if c2, ok := x.Tuple.(*ssa.Call); ok {
+				return c2, x.Index, true
+			}
+		case *ssa.Call:
+			if _, isB := x.Call.Value.(*ssa.Builtin); !isB {
+				return x, 0, true
+			}
+		}
+		return nil, 0, false
+	}
+	for d := at; d != nil && d.Idom() != nil; d = d.Idom() {
+		id := d.Idom()
+		if len(d.Preds) != 1 || d.Preds[0] != id {
+			continue
+		}
+		cond, neg, ok := branchCond(id, d)
+		if !ok {
+			continue
+		}
+		for {
+			u, isNot := cond.(*ssa.UnOp)
+			if !isNot || u.Op != token.NOT {
+				break
+			}
+			cond, neg = u.X, !neg
+		}
+		if c2, i, ok := resultOf(cond); ok && isBoolType(cond.Type()) {
+			get(c2).boolG[i] = !neg
+			continue
+		}
+		bo, ok := cond.(*ssa.BinOp)
+		if !ok || (bo.Op != token.EQL && bo.Op != token.NEQ) {
+			continue
+		}
+		eq := (bo.Op == token.EQL) != neg
+		for _, pair := range [][2]ssa.Value{{bo.X, bo.Y}, {bo.Y, bo.X}} {
+			c2, i, ok := resultOf(pair[0])
+			if !ok {
+				continue
+			}
+			if isNilConst(pair[1]) {
+				get(c2).nilG[i] = eq
+			} else if k, isK := constInt(pair[1]); isK {
+				e := int64(0)
+				if eq {
+					e = 1
+				}
+				get(c2).eqG[i] = [2]int64{k, e}
+			}
+		}
+	}
+	for call, g := range byCall {
+		cf := call.Call.StaticCallee()
+		if cf == nil || cf.Blocks == nil || !firstParty(cf) || len(call.Call.Args) != len(cf.Params) {
+			continue
+		}
+		pj := -1
+		for j, a := range call.Call.Args {
+			if lenNode(a) == ln {
+				pj = j
+			}
+		}
+		if pj < 0 {
+			continue
+		}
+		if p.viaCalleeGuardProve(cf, goal, ln, pj, g.boolG, g.nilG, g.eqG) {
+			return true
+		}
+	}
+	return false
+}
+
+func (p *bprover) viaCalleeGuardProve(cf *ssa.Function, goal dfact, ln string, pj int, boolG, nilG map[int]bool, eqG map[int][2]int64) bool {
+	calleeProofDepth++
+	defer func() { calleeProofDepth-- }()
+	pr := p.c.newProver(cf)
+	any := false
+	for _, b := range cf.Blocks {
+		ret, ok := b.Instrs[len(b.Instrs)-1].(*ssa.Return)
+		if !ok {
+			continue
+		}
+		rr := retResults(ret)
+		excluded := false
+		for gi, want := range boolG {
+			if gi >= len(rr) || len(rr[gi]) == 0 {
+				continue
+			}
+			all := true
+			for _, v := range rr[gi] {
+				k, isC := v.(*ssa.Const)
+				if !isC || k.Value == nil || (k.Value.ExactString() == "true") == want {
+					all = false
+				}
+			}
+			excluded = excluded || all
+		}
+		for gi, wantNil := range nilG {
+			if gi >= len(rr) || len(rr[gi]) == 0 {
+				continue
+			}
+			all := true
+			for _, v := range rr[gi] {
+				definitelyNot := false
+				switch v.(type) {
+				case *ssa.MakeInterface, *ssa.Alloc, *ssa.MakeSlice, *ssa.MakeMap:
+					definitelyNot = true
+				}
+				if (wantNil && !definitelyNot) || (!wantNil && !isNilConst(v)) {
+					all = false
+				}
+			}
+			excluded = excluded || all
+		}
+		for gi, ke := range eqG {
+			if gi >= len(rr) || len(rr[gi]) == 0 {
+				continue
+			}
+			k, wantEq := ke[0], ke[1] == 1
+			all := true
+			for _, v := range rr[gi] {
+				if c2, isC := constInt(v); isC {
+					if (c2 == k) == wantEq {
+						all = false
+					}
+					continue
+				}
+				if !isIntType(v.Type()) {
+					all = false
+					continue
+				}
+				if wantEq {
+					// the site needs r == k: this return is out if its value is provably different
+					if !(pr.ProveLE(pr.lin(v), lt{"0", 0}, k-1, ret) || pr.ProveLE(lt{"0", 0}, pr.lin(v), -(k+1), ret)) {
+						all = false
+					}
+				} else {
+					all = false
+				}
+			}
+			excluded = excluded || all
+		}
+		if excluded {
+			continue
+		}
+		any = true
+		sub := func(n string) lt {
+			if n == ln {
+				return pr.lenOf(cf.Params[pj])
+			}
+			return lt{"0", 0}
+		}
+		if !pr.ProveLE(sub(goal.a), sub(goal.b), goal.c, ret) {
+			return false
+		}
+	}
+	return any
 }
